@@ -20,7 +20,11 @@ def showRat (q : Rat) : String := s!"{q.num}/{q.den}"
 def parseRat? (s : String) : Option Rat :=
   match s.splitOn "/" with
   | [n] => n.toInt?.map (fun i => (i : Rat))
-  | [n, d] => match n.toInt?, d.toNat? with
+  | [n, d] =>
+    let den : Option Nat := match d.splitOn "^" with
+      | [b, e] => (do let b ← b.toNat?; let e ← e.toNat?; pure (b ^ e))
+      | _ => d.toNat?
+    match n.toInt?, den with
     | some i, some k => if k == 0 then none else some (mkRat i k)
     | _, _ => none
   | _ => none
